@@ -2,12 +2,137 @@
   C01 (apply_patch level) — applying a diff reproduces the new file exactly.
 -/
 import PatchModel.Spec.Script
+import PatchModel.Lemmas.Valid
+import Wip.C03
 namespace PatchModel.C01
-open PatchModel
+open PatchModel PatchModel.Script
+
+/-! ### helpers: the locator and the hunk loop on a valid script -/
+
+theorem lines_ne_nil_of_count {h : Hunk} (hw : h.WF) (hc : h.old.count ≠ 0) : h.lines ≠ [] := by
+  intro e
+  apply hc
+  rw [hw.2.1, e]; rfl
+
+/-- under the head conditions of `Valid` the locator returns the stated place, fuzz 0, offset 0 -/
+theorem locate_inplace (file : List Line) (h : Hunk) (iw : Bool) (maxFuzz : Int) (c p : Nat)
+    (hw : h.WF) (hp : h.pos0 = (p : Int)) (hcp : c ≤ p)
+    (hold : (file.drop p).take (oldOf h.lines).length = oldOf h.lines)
+    (hfit : p + (oldOf h.lines).length ≤ file.length)
+    (hex : ¬ (h.old.count = 0 ∧ h.old.start = 0 ∧ file ≠ []))
+    (hF : 0 ≤ maxFuzz) :
+    locateHunk file h iw 0 maxFuzz c = some ⟨p, 0, 0⟩ := by
+  have hg : expectedLine h - 1 + 0 = (p : Int) := by
+    unfold Hunk.pos0 at hp; omega
+  by_cases hc : h.old.count = 0
+  · exact C03.locate_insertion_exact file h iw 0 maxFuzz c p hc hg hcp (by omega)
+      (fun hh => hex ⟨hc, hh.1, hh.2⟩)
+  · exact C03.locate_exact file h iw 0 maxFuzz c p hw hc hg hcp
+      (admissible_of_inplace file h iw maxFuzz p hF (lines_ne_nil_of_count hw hc) hold hfit)
+
+/-- the placements a valid script states, numbered from `num` -/
+def statedFrom (num : Nat) (hs : List Hunk) : List (Nat × Location) :=
+  (hs.zipIdx num).map fun (h, i) => (i, ⟨h.pos0, 0, 0⟩)
+
+/-- the hunk loop on a valid script: every hunk is written at its stated place -/
+theorem applyRest_valid (file : List Line) (o : ApplyOpts) (pt : Patch)
+    (hD : o.define = []) (hF : 0 ≤ o.maxFuzz) :
+    ∀ (c : Nat) (d : Int) (hs : List Hunk), Valid file c d hs →
+    ∀ (s : AState) (num : Nat), s.cursor = c → s.offErr = 0 → s.skip = false →
+    ∃ s', applyRest file o pt s num hs = .ok s' ∧
+      (s'.out ++ copyRange file s'.cursor (file.length - s'.cursor)).map Out.line =
+        s.out.map Out.line ++ splice file c hs ∧
+      s'.rejected = s.rejected ∧ s'.rejBytes = s.rejBytes ∧ s'.perfect = s.perfect ∧ s'.skip = false ∧
+      s'.applied = s.applied ++ statedFrom num hs ∧
+      (o.verbose = false → s'.msgs = s.msgs) ∧ s.msgs <+: s'.msgs ∧ s'.tty = s.tty := by
+  intro c d hs hv
+  induction hv with
+  | nil c d hc =>
+    intro s num hcur _ hsk
+    refine ⟨s, rfl, ?_, rfl, rfl, rfl, hsk, by simp [statedFrom], fun _ => rfl, List.prefix_refl _, rfl⟩
+    rw [List.map_append, copyRange_map_line, hcur, splice]
+    rw [List.take_of_length_le (by simp)]
+  | cons c d h hs p hw hp hcp hold hfit hnew hex hv' ih =>
+    intro s num hcur hoff hsk
+    have hloc := locate_inplace file h o.ignoreWhitespace o.maxFuzz c p hw hp hcp hold hfit hex hF
+    obtain ⟨s1, e1, a1, a2, a3, a4, a5, a6, a7, a8, a9, a10, a11, _⟩ :=
+      finishHunk_inplace file o pt s num h p hD hsk hw.1 hfit
+    obtain ⟨s2, e2, b1, b2, b3, b4, b5, b6, b7, b8, b9⟩ := ih s1 (num + 1) a2 (a3.trans hoff) a4
+    refine ⟨s2, ?_, ?_, b2.trans a7, b3.trans a6, b4.trans a5, b5, ?_,
+      fun hv => (b7 hv).trans (a9 hv), a10.trans b8, b9.trans a11⟩
+    · simp only [applyRest, hoff, hcur, hloc, e1, e2]
+    · have hp0 : h.pos0.toNat = p := by rw [hp]; simp
+      rw [b1, a1, splice, hp0, hcur]
+      simp only [List.map_append, copyRange_map_line,
+        hunkOutput_map_line file h.lines p hw.1 hold hfit, List.append_assoc]
+    · rw [b6, a8]
+      simp [statedFrom, List.zipIdx_cons, hp]
+
 
 /-- the placements a valid script states: hunk i at its stated line, fuzz 0, offset 0 -/
 def statedPlacements (hs : List Hunk) : List (Nat × Location) :=
   hs.zipIdx.map fun (h, i) => (i, ⟨h.pos0, 0, 0⟩)
+
+/-- the `finish` closure of `applyPatch` -/
+def finishRes (file : List Line) (p : Patch) (s : AState) : ApplyResult :=
+  { out := s.out ++ copyRange file s.cursor (file.length - s.cursor), rejBytes := s.rejBytes,
+    failed := s.rejected.length, skipped := s.skip, perfect := s.perfect, rejected := s.rejected,
+    applied := s.applied, msgs := s.msgs, patch := p, tty := s.tty }
+
+/-- the first iteration (done separately by `apply_patch`) followed by the loop is the loop from hunk 0 -/
+theorem first_then_rest {α : Type} (file : List Line) (o : ApplyOpts) (pt : Patch) (s : AState) (h0 : Hunk)
+    (rest : List Hunk) (F : AState → α) :
+    (match finishHunk file o pt s 0 h0 (locateHunk file h0 o.ignoreWhitespace s.offErr o.maxFuzz s.cursor) with
+      | .error e => (Except.error e : Except Exn α)
+      | .ok s2 => match applyRest file o pt s2 1 rest with
+        | .error e => .error e
+        | .ok s3 => .ok (F s3)) =
+    (match applyRest file o pt s 0 (h0 :: rest) with
+      | .error e => .error e
+      | .ok s3 => .ok (F s3)) := by
+  simp only [applyRest]
+  cases finishHunk file o pt s 0 h0 _ <;> rfl
+
+/-- `apply_patch` on a valid script (with or without -R: `hs` is the script after the optional reversal) -/
+theorem applyPatch_valid (file : List Line) (hs : List Hunk) (p0 : Patch) (o : ApplyOpts) (tty : Option (List Bool))
+    (hv : Valid file 0 0 hs) (hp : (if o.reverse then reversePatch p0 else p0).hunks = hs)
+    (hD : o.define = []) (hF : 0 ≤ o.maxFuzz) :
+    ∃ r, applyPatch file p0 o tty = .ok r ∧
+      r.out.map Out.line = splice file 0 hs ∧
+      r.rejected = [] ∧ r.failed = 0 ∧ r.rejBytes = [] ∧ r.perfect = true ∧ r.skipped = false ∧
+      r.applied = statedPlacements hs ∧
+      (o.verbose = false → r.msgs = []) ∧ r.tty = tty ∧
+      r.patch = (if o.reverse then reversePatch p0 else p0) := by
+  unfold applyPatch
+  simp only []
+  generalize (if o.reverse = true then reversePatch p0 else p0) = p at hp ⊢
+  cases hs with
+  | nil =>
+    rw [hp]
+    refine ⟨_, rfl, ?_⟩
+    simp [copyRange_map_line, splice, statedPlacements]
+  | cons h0 rest =>
+    rw [hp]
+    simp only []
+    cases hv with
+    | cons _ _ _ _ q hw hq hcq hold hfit hnew hex hv' =>
+    have hloc := locate_inplace file h0 o.ignoreWhitespace o.maxFuzz 0 q hw hq hcq hold hfit hex hF
+    have hsc : shouldCheckReversed (some ⟨q, 0, 0⟩) o = false := by simp [shouldCheckReversed]
+    rw [hloc, hsc]
+    simp only [Bool.false_eq_true, if_false]
+    obtain ⟨s3, e, b1, b2, b3, b4, b5, b6, b7, b8, b9⟩ :=
+      applyRest_valid file o p hD hF 0 0 (h0 :: rest)
+        (Valid.cons 0 0 h0 rest q hw hq hcq hold hfit hnew hex hv') ({ tty := tty } : AState) 0 rfl rfl rfl
+    have := first_then_rest file o p ({ tty := tty } : AState) h0 rest
+      (finishRes file p)
+    simp only [hloc] at this
+    refine ⟨finishRes file p s3, ?_, ?_, b2, ?_, b3, b4, b5, ?_, ?_, b9, rfl⟩
+    · refine Eq.trans this ?_
+      rw [e]
+    · simpa [finishRes] using b1
+    · simp [finishRes, b2]
+    · simpa [finishRes, statedFrom, statedPlacements] using b6
+    · intro hvb; exact b7 hvb
 
 /-- **C01 core**: for every file and every valid script (a diff of that file: any number of hunks, any context
     width, missing final newlines, repeated lines elsewhere in the file), with any `-F ≥ 0`, with or without `-l`,
@@ -22,7 +147,9 @@ theorem C01_core (file : List Line) (hs : List Hunk) (p0 : Patch) (o : ApplyOpts
       r.rejected = [] ∧ r.failed = 0 ∧ r.rejBytes = [] ∧ r.perfect = true ∧ r.skipped = false ∧
       r.applied = statedPlacements hs ∧
       (o.verbose = false → r.msgs = []) ∧ r.tty = tty := by
-  sorry
+  obtain ⟨r, h1, h2, h3, h4, h5, h6, h7, h8, h9, h10, _⟩ :=
+    applyPatch_valid file hs p0 o tty hv (by simp [hR, hp]) hD hF
+  exact ⟨r, h1, h2, h3, h4, h5, h6, h7, h8, h9, h10⟩
 
 /-- bytes level: the output file is the rendering of the intended new file -/
 theorem C01_bytes (file : List Line) (hs : List Hunk) (p0 : Patch) (o : ApplyOpts) (tty : Option (List Bool))
@@ -30,7 +157,8 @@ theorem C01_bytes (file : List Line) (hs : List Hunk) (p0 : Patch) (o : ApplyOpt
     (hD : o.define = []) (hR : o.reverse = false) (hF : 0 ≤ o.maxFuzz) :
     ∃ r, applyPatch file p0 o tty = .ok r ∧
       render o.newlineOutput r.out = renderLines o.newlineOutput (splice file 0 hs) := by
-  sorry
+  obtain ⟨r, h1, h2, _⟩ := C01_core file hs p0 o tty hv hp hD hR hF
+  exact ⟨r, h1, by rw [render, h2]⟩
 
 /-! ### non-vacuity: a valid script exists for every pair of files -/
 
